@@ -422,6 +422,12 @@ func c10R5(c *Ctx, rule string) {
 		"(*Raft).dispatchLogs":  "leader: stage current commit index with the append",
 		"(*Raft).appendEntries": "follower: stage min(leaderCommit, last new index) with the append",
 	})
+	if th := c.Fn(rule, "(*Raft).tryStageCommitIndex"); th != nil {
+		for _, s := range c.P.CallsIn(th, engine.Is("iface:CommitTrackingLogStore.StageCommitIndex")) {
+			a := c.P.Arg(s.Instr, 0)
+			c.Check(rule, "tryStageCommitIndex:passes-its-argument", c.P.InstrPos(s.Instr), "the helper stages exactly the value its caller computed", a == "p1", "stages "+a, 1)
+		}
+	}
 	c.WhoMay(rule, "call CommitTrackingLogStore.StageCommitIndex", c.P.CallsEverywhere(engine.Is("iface:CommitTrackingLogStore.StageCommitIndex")), map[string]string{
 		"(*Raft).tryStageCommitIndex": "the only staging site",
 	})
@@ -555,6 +561,38 @@ func c10R9(c *Ctx, rule string) {
 	idx, term := c.P.Arg(create, 1), c.P.Arg(create, 2)
 	const snapIdx, entryIdx = "val(range p5.List()#0).Index", "var(Log).Index"
 	okPos := strings.Contains(idx, snapIdx) && strings.Contains(idx, entryIdx) && strings.ReplaceAll(idx, ".Index", ".Term") == term
+	// structure: the value is the replay loop's own running variable – a phi at
+	// the loop test with exactly two sources: the restored snapshot's position
+	// and the position of the entry read in the iteration (unconditionally)
+	posPhi := func(v ssa.Value, field string) bool {
+		ph, ok := v.(*ssa.Phi)
+		if !ok || len(ph.Edges) != 2 {
+			return false
+		}
+		hasLoopTest := false
+		for _, in := range ph.Block().Instrs {
+			if ifi, ok := in.(*ssa.If); ok {
+				cd := c.P.CondOf(ifi.Cond)
+				if cd.IsRel && (cd.Y == "p3.LastIndex()#0" || cd.X == "p3.LastIndex()#0") {
+					hasLoopTest = true
+				}
+			}
+		}
+		snap, entry := false, false
+		for _, e := range ph.Edges {
+			if _, isPhi := e.(*ssa.Phi); isPhi {
+				if c.P.D(e) == "phi(0 | val(range p5.List()#0)."+field+")" {
+					snap = true
+				}
+				continue
+			}
+			if c.P.D(e) == "var(Log)."+field {
+				entry = true
+			}
+		}
+		return hasLoopTest && snap && entry
+	}
+	okPos = okPos && posPhi(engine.ArgValue(create, 1), "Index") && posPhi(engine.ArgValue(create, 2), "Term")
 	c.Check(rule, "RecoverCluster:snapshot-position", c.P.InstrPos(create), "the recovery snapshot is taken at (index, term) of the last replayed log entry, or of the restored snapshot when no later entry exists – never below what the server had already recorded", okPos, "Create(_, "+idx+", "+term+", …)", 1)
 	okCfg := c.P.Arg(create, 3) == "p7" && c.P.Arg(create, 4) == "1" && c.P.Arg(create, 5) == "p6"
 	c.Check(rule, "RecoverCluster:snapshot-configuration", c.P.InstrPos(create), "the snapshot carries the configuration passed by the operator (configuration index 1)", okCfg, "Create(…, "+c.P.Arg(create, 3)+", "+c.P.Arg(create, 4)+", "+c.P.Arg(create, 5)+")", 1)
